@@ -6,6 +6,7 @@ import (
 	"encoding/base64"
 	"encoding/hex"
 	"fmt"
+	"os"
 	"runtime/debug"
 	"runtime/pprof"
 	"strings"
@@ -40,19 +41,20 @@ type patch struct {
 type c12Prog struct {
 	Shape   string  `json:"shape"` // entry | manifest | pb-entry | pb-manifest | arbitrary
 	Patches []patch `json:"patches"`
-	Sorted  bool    `json:"sorted"`  // canonical key order
-	NLinks  int     `json:"nlinks"`  // links in the base entry
-	Pos     int     `json:"pos"`     // where the hostile block is referenced from in the healthy log
-	AsRef   bool    `json:"asRef"`   // referenced via refs instead of next
-	Chain   int     `json:"chain"`   // healthy chain length
-	Arb     Val     `json:"arb"`     // arbitrary shape value
-	Loader  int     `json:"loader"`  // 0 entry hash, 1 manifest
-	Conc    int     `json:"conc"`    // fetch concurrency of the loads (0 = default)
-	Extra   int     `json:"extra"`   // additional undecodable blocks named next to the hostile one
+	Sorted  bool    `json:"sorted"` // canonical key order
+	NLinks  int     `json:"nlinks"` // links in the base entry
+	Pos     int     `json:"pos"`    // where the hostile block is referenced from in the healthy log
+	AsRef   bool    `json:"asRef"`  // referenced via refs instead of next
+	Chain   int     `json:"chain"`  // healthy chain length
+	Arb     Val     `json:"arb"`    // arbitrary shape value
+	Loader  int     `json:"loader"` // 0 entry hash, 1 manifest
+	Conc    int     `json:"conc"`   // fetch concurrency of the loads (0 = default)
+	Extra   int     `json:"extra"`  // additional undecodable blocks named next to the hostile one
 	// entry-linkkey-inner: the link lists sealed with the readers' own key are hostile themselves (a writer who
 	// holds the shared key): patches to {next, refs} before sealing, or an arbitrary value sealed instead
 	Inner    []patch `json:"inner,omitempty"`
 	InnerArb *Val    `json:"innerArb,omitempty"`
+	Debug    bool    `json:"debug,omitempty"` // the codecs run with their debug switch on (SetDebug(true)); output goes to /dev/null
 }
 
 var innerPaths = []string{"next", "refs", "next[0]", "refs[0]", "next[1]", "next[2]", "+extra"}
@@ -72,6 +74,7 @@ func genC12(t *rapid.T) c12Prog {
 		Loader: rapid.IntRange(0, 1).Draw(t, "loader"),
 		Conc:   rapid.SampledFrom([]int{0, 0, 1, 2, 3}).Draw(t, "conc"),
 		Extra:  rapid.SampledFrom([]int{0, 0, 1, 2, 3}).Draw(t, "extra"),
+		Debug:  rapid.IntRange(0, 49).Draw(t, "debug") == 31,
 	}
 	paths := entryPaths
 	if p.Shape == "entry-linkkey" {
@@ -443,6 +446,16 @@ func runC12(tb ev.TB, p c12Prog) ev.Result {
 	healthy, _ := healthyEntry(tb)
 	st := fakeipfs.NewStore()
 	cborIO, linkIO, pbIO := world.IO(world.CodecDefault, 0), world.IO(world.CodecLinkKey, 0), world.IO(world.CodecPB, 0)
+	if p.Debug {
+		// private codec instances with the debug switch on; what they print is not of interest
+		d1, d2 := world.DebugIO(world.CodecDefault, 0), world.DebugIO(world.CodecLinkKey, 0)
+		cborIO, linkIO = d1, d2
+		if null, err := os.OpenFile(os.DevNull, os.O_WRONLY, 0); err == nil {
+			saved := os.Stdout
+			os.Stdout = null
+			defer func() { os.Stdout = saved; null.Close() }()
+		}
+	}
 	provider := world.Identity(0).Provider
 
 	// healthy chain in the store: c[0] <- c[1] <- ... ; the hostile block is referenced from c[pos]
